@@ -332,6 +332,10 @@ struct dirent64 *readdir64(DIR *d) {
     if (before("readdir64", "readdir", "", phys_)) { LEAVE(); errno = g_errno; return NULL; }
     errno = 0;
     struct dirent64 *r = real_readdir64(d);
+    int e_ = errno;
+    /* logged like every other counted call: the position of a call in the log is its index for inject/crash */
+    logline("readdir64", "readdir", r ? r->d_name : "", phys_, r ? 1 : 0, r ? 0 : e_, NULL);
+    errno = e_;
     LEAVE();
     return r;
 }
